@@ -50,4 +50,17 @@ def runHistory (fs : FS) : List Call → FS × List Outcome
     let rest := runHistory r.1 cs
     (rest.1, r.2 :: rest.2)
 
+/-! ### the same as a sequence of file-system events (the order in which `_out_files` states them) -/
+
+inductive FsEvent | checkCorr | checkParam | openCorr | openParam deriving Repr, DecidableEq
+
+/-- run a sequence of existence checks and `open(..., 'w')` calls: a failed check raises FileExistsError and leaves
+    whatever the earlier events did -/
+def runEvents (fs : FS) (c : Call) : List FsEvent → FS × Outcome
+  | [] => (fs, .ok)
+  | .checkCorr :: es => if !c.overwrite && fs.exists' c.corr then (fs, .fileExists) else runEvents fs c es
+  | .checkParam :: es => if !c.overwrite && fs.paramExists c.param then (fs, .fileExists) else runEvents fs c es
+  | .openCorr :: es => runEvents (fs.put c.corr c.corrContent) c es
+  | .openParam :: es => runEvents (fs.putParam c.paramContent c.param) c es
+
 end Homonim
